@@ -55,7 +55,13 @@ Record sender := mkSender {
   mr : mret;        (* r: what the member call returned                                     *)
   own : bool;       (* this sender's cancel function has been called                        *)
   rd : rdst;        (* the reader the member handed out (Blob style, successful answer)     *)
-  rdead : bool      (* ghost: the member's context was done when its call returned          *)
+  rdead : bool;     (* ghost: the member's context was done when its call returned          *)
+  early : bool      (* ghost: a method of the reader the member handed out (Close - by the
+                       unifier for the member that was not chosen, by blobReader.Close for the
+                       chosen one - or Read / Descriptor through the returned reader) was
+                       called on the not yet closed reader while the member's context had
+                       already been cancelled although the caller's context was live: the
+                       unifier cancelled the context under a reader that was still open      *)
 }.
 
 (* main goroutine: runReadConcurrent, then the wrapper *)
@@ -127,10 +133,11 @@ Definition with_cctx (s : state) : state :=
 Definition with_cl (c : clpc) (s : state) : state :=
   mkState (st s) (kd0 s) (kd1 s) (cctx s) (main s) (res s) (cf s) (done s) (sd0 s) (sd1 s) c.
 
-Definition with_pc (p : spc) (x : sender) : sender := mkSender p (gt x) (mr x) (own x) (rd x) (rdead x).
-Definition with_gt (g : gate) (x : sender) : sender := mkSender (pc x) g (mr x) (own x) (rd x) (rdead x).
-Definition with_own (x : sender) : sender := mkSender (pc x) (gt x) (mr x) true (rd x) (rdead x).
-Definition with_rd (r : rdst) (x : sender) : sender := mkSender (pc x) (gt x) (mr x) (own x) r (rdead x).
+Definition with_pc (p : spc) (x : sender) : sender := mkSender p (gt x) (mr x) (own x) (rd x) (rdead x) (early x).
+Definition with_gt (g : gate) (x : sender) : sender := mkSender (pc x) g (mr x) (own x) (rd x) (rdead x) (early x).
+Definition with_own (x : sender) : sender := mkSender (pc x) (gt x) (mr x) true (rd x) (rdead x) (early x).
+Definition with_rd (r : rdst) (x : sender) : sender := mkSender (pc x) (gt x) (mr x) (own x) r (rdead x) (early x).
+Definition with_early (b : bool) (x : sender) : sender := mkSender (pc x) (gt x) (mr x) (own x) (rd x) (rdead x) b.
 
 (* a derived context is done when its own cancel ran or its parent is done *)
 Definition dead (i : mem) (s : state) : bool := cctx s || own (sd i s).
@@ -140,6 +147,17 @@ Definition call_cancel (c : cancelf) (s : state) : state :=
   match c with
   | CNoop => s
   | CMem i => set_sd i (with_own (sd i s)) s
+  end.
+
+(* A method of member i's reader starts (Close, Read, Descriptor ...): what the reader sees of
+   the context of the call that opened it.  Sampled while the reader has not been closed: the
+   context has been cancelled by the unifier (its own cancel function) while the caller's
+   context is live. *)
+Definition touch_rd (i : mem) (s : state) : state :=
+  let x := sd i s in
+  match rd x with
+  | RdOpen => set_sd i (with_early (early x || (own x && negb (cctx s))) x) s
+  | _ => s
   end.
 
 (* Close on a member reader *)
@@ -152,7 +170,7 @@ Definition member_return (i : mem) (a : answer) (s : state) : state :=
   let x := sd i s in
   set_sd i (mkSender S_select (gt x) (Ret a) (own x)
                      (match st s, a with Blob, Succ => RdOpen | _, _ => rd x end)
-                     (dead i s)) s.
+                     (dead i s) (early x)) s.
 
 (* ---------- internal steps ---------- *)
 
@@ -202,7 +220,11 @@ Definition sender_steps (i : mem) (s : state) : list state :=
       | OnCancel a => if dead i s then [member_return i a s] else []
       end
   | S_select => if done s then [set_sd i (with_pc S_dclose x) s] else []
-  | S_dclose => [set_sd i (with_pc S_dcancel (with_rd (close_rd (rd x)) x)) s]
+  | S_dclose =>
+      (* r.close(): the member reader's Close starts (it sees its context), then closes *)
+      let s1 := touch_rd i s in
+      let x1 := sd i s1 in
+      [set_sd i (with_pc S_dcancel (with_rd (close_rd (rd x1)) x1)) s1]
   | S_dcancel => [set_sd i (with_pc S_exit (with_own x)) s]
   | S_exit => []
   end.
@@ -211,7 +233,10 @@ Definition close_steps (s : state) : list state :=
   match cl s with
   | Cl_inner =>
       match res s with
-      | ROk j => [with_cl Cl_cancel (set_sd j (with_rd (close_rd (rd (sd j s))) (sd j s)) s)]
+      | ROk j =>
+          (* r.BlobReader.Close(): the member reader's Close starts (it sees its context) ... *)
+          let s1 := touch_rd j s in
+          [with_cl Cl_cancel (set_sd j (with_rd (close_rd (rd (sd j s1))) (sd j s1)) s1)]
       | _ => [with_cl Cl_cancel s]
       end
   | Cl_cancel => [with_cl Cl_done (call_cancel (cf s) s)]
@@ -228,7 +253,10 @@ Definition quiescent (s : state) : bool := match istep s with [] => true | _ => 
 (* What the caller does with the returned reader before closing it.  blobReader embeds the
    member's ociregistry.BlobReader and defines Close only, so Read and Descriptor are the
    member reader's own methods: none of them is a step of the protocol (no context, reader or
-   goroutine changes), whether the Read delivers bytes, io.EOF or an error. *)
+   goroutine changes), whether the Read delivers bytes, io.EOF or an error.  The member's reader
+   sees the context of the call that opened it when the method starts (touch_rd): in every
+   reachable state that context is live unless the caller's is done, so the step changes
+   nothing (Proofs: use_neutral). *)
 Inductive use := UPartial | UDrain | UDesc.
 
 Inductive ev := EStart | ERet (i : mem) (a : answer) | ECancel | EClose | EUse (u : use).
@@ -250,7 +278,7 @@ Definition estep (e : ev) (s : state) : option state :=
   | EUse _ =>
       (* possible while the caller holds the returned reader; leaves every component alone *)
       match main s, st s, res s, cl s with
-      | M_returned, Blob, ROk _, Cl_none => Some s
+      | M_returned, Blob, ROk j, Cl_none => Some (touch_rd j s)
       | _, _, _, _ => None
       end
   end.
@@ -270,7 +298,7 @@ Definition apply_ev (e : ev) (s : state) : state :=
 
 (* ---------- initial states: every configuration ---------- *)
 
-Definition sender0 : sender := mkSender S_idle GShut NotRet false RdNone false.
+Definition sender0 : sender := mkSender S_idle GShut NotRet false RdNone false false.
 
 Definition init (y : style) (k0 k1 : kind) : state :=
   mkState y k0 k1 false M_idle RNone CNoop false sender0 sender0 Cl_none.
@@ -320,9 +348,12 @@ Record msnap := mkMsnap {
   ms_rdead : bool;     (* its context was done at the moment it returned                    *)
   ms_dead : bool;      (* its context is done now                                           *)
   ms_rd : rdst;        (* the reader it handed out: none / open / closed / closed twice     *)
-  ms_timer : bool      (* the context it was given carries a deadline (a timer) that the
+  ms_timer : bool;     (* the context it was given carries a deadline (a timer) that the
                           caller's context does not have: it can end without the caller
                           cancelling and without the unifier's cancel being called            *)
+  ms_early : bool      (* at the start of some method of the reader it handed out (Close above
+                          all; Read, Descriptor ...), the reader not yet closed, its context
+                          was already cancelled while the caller's context was live            *)
 }.
 
 Record snapshot := mkSnap {
@@ -341,7 +372,7 @@ Definition msnap_of (i : mem) (s : state) : msnap :=
   let started := match pc x with S_idle | S_new => false | _ => true end in
   (* context.WithCancel: the derived context ends by its own cancel or with the caller's, never by
      a timer of its own *)
-  mkMsnap started (mr x) (rdead x) (started && dead i s) (rd x) false.
+  mkMsnap started (mr x) (rdead x) (started && dead i s) (rd x) false (early x).
 
 Definition b2n (b : bool) : N := if b then 1 else 0.
 
